@@ -394,6 +394,7 @@ func checkC20(c *Ctx) {
 		}
 		c.Floor("C20.R3", "MergeWith sites in MatchHost", nMerge, 1)
 	}
+	c20R4(c)
 }
 
 // resolveAlong resolves phis of blocks on the path (other than the first) by the path's edges.
